@@ -121,6 +121,30 @@ def memo_rules(ctx: Ctx, rep: Report, rid: str = "R05.1", only_class: Optional[s
                     may_write[g] = out
                     return out
 
+                def _paired(g: Func, tt: ast.Tuple, v: Optional[ast.AST], attr: str):
+                    """(target, value) of `self.<attr>` in a tuple assignment; the value None when it cannot be paired."""
+                    idx = [i for i, e in enumerate(tt.elts) if isinstance(e, ast.Attribute) and src(e.value) == "self" and e.attr == attr]
+                    if len(idx) != 1 or any(isinstance(e, ast.Starred) for e in tt.elts):
+                        return None, None
+                    i = idx[0]
+                    if isinstance(v, ast.Name):
+                        binds = [b.value for b in own_nodes(g.node) if isinstance(b, ast.Assign) and len(b.targets) == 1 and isinstance(b.targets[0], ast.Name) and b.targets[0].id == v.id]
+                        stores_ = [b for b in own_nodes(g.node) if isinstance(b, ast.Name) and b.id == v.id and isinstance(b.ctx, (ast.Store, ast.Del))]
+                        v = binds[0] if len(binds) == 1 and len(stores_) == 1 else None
+                    if not isinstance(v, (ast.Tuple, ast.List)):
+                        return tt.elts[i], None
+                    stars = [j for j, e in enumerate(v.elts) if isinstance(e, ast.Starred)]
+                    if not stars and len(v.elts) == len(tt.elts):
+                        return tt.elts[i], v.elts[i]
+                    if len(stars) == 1:
+                        # one unpacked element: what stands before it pairs from the left, what stands after it from the right
+                        if i < stars[0]:
+                            return tt.elts[i], v.elts[i]
+                        back = len(tt.elts) - i
+                        if back <= len(v.elts) - 1 - stars[0]:
+                            return tt.elts[i], v.elts[len(v.elts) - back]
+                    return tt.elts[i], None
+
                 must_reset: Dict[Func, bool] = {}
 
                 def resets(g: Func, busy: Optional[Set[int]] = None) -> bool:
@@ -143,8 +167,11 @@ def memo_rules(ctx: Ctx, rep: Report, rid: str = "R05.1", only_class: Optional[s
                     if isinstance(n.ast, (ast.Assign, ast.AnnAssign)):
                         tg = n.ast.targets if isinstance(n.ast, ast.Assign) else [n.ast.target]
                         for t in tg:
+                            v = n.ast.value
+                            if isinstance(t, ast.Tuple):
+                                # `self._a, ..., self._memo = x, ..., []` (the tuple possibly bound to a local first)
+                                t, v = _paired(g, t, v, memo)
                             if isinstance(t, ast.Attribute) and src(t.value) == "self" and t.attr == memo:
-                                v = n.ast.value
                                 if isinstance(v, ast.Constant) and not v.value or isinstance(v, (ast.List, ast.Dict, ast.Tuple, ast.Set)) and not getattr(v, "elts", getattr(v, "keys", [])):
                                     return True
                     if isinstance(n.ast, ast.Delete) and any(isinstance(t, ast.Attribute) and t.attr == memo for t in n.ast.targets):
